@@ -11,6 +11,7 @@ def run(tier, seed):
         {"prog": "page-delete", "strategy": "pct", "runs": (150, 2000), "args": ["--snap", "3", "--spurious", "1"]},
         {"prog": "page-collect", "strategy": "random", "runs": (150, 2000), "args": ["--snap", "3", "--spurious", "2", "--rate", "2"]},
         {"prog": "page-delete", "strategy": "random", "runs": (100, 1500), "args": ["--snap", "3", "--size", "60000", "65536", "--spurious", "1"]},
+        {"prog": "page-delete", "strategy": "random", "runs": (80, 1000), "args": ["--snap", "3", "--park", "6", "--rate", "3"]},      # heap delete waits for a stalled remote free
         # a first-class heap at work next to memory left behind by exited threads, then destroyed / deleted: exactly its own blocks
         {"prog": "exit-heap", "strategy": "random", "runs": (30, 400), "args": ["--rate", "3"]},
         {"prog": "exit-heap", "strategy": "pct", "runs": (20, 300), "args": [], "env": {"MIMALLOC_ABANDONED_RECLAIM_ON_FREE": "1"}},
